@@ -551,6 +551,7 @@ private:
     }
     _upgradeComplete.store(false);
     _closeEchoed.store(false); // re-arm the one-shot CLOSE echo for this connection
+    _recvFailed.store(false);  // a fresh connection reads again
 
     // Register the global callbacks on the LOCAL transport. Each weak-captures
     // the client (NEVER an owning shared_ptr<Transport> of its own _transport —
@@ -696,6 +697,13 @@ private:
     // Move-parse-callback pattern: buffer ops under lock, callbacks outside.
     // Same pattern as server's onUpgradedData to avoid deadlock.
 
+    // After a protocol failure (failConnection) the rest of the stream is
+    // discarded rather than buffered.
+    if (_recvFailed.load())
+    {
+      return;
+    }
+
     // Step 1: append data and move buffer out under lock
     std::vector<std::uint8_t> localBuffer;
     {
@@ -802,6 +810,15 @@ private:
     {
       core::BufferView view(localBuffer.data() + offset,
                             localBuffer.size() - offset);
+
+      // A malformed header can never become a frame: fail the connection now
+      // instead of treating it as "incomplete" and buffering forever.
+      if (WebSocketFrame::inspectHeader(view) == WsHeaderStatus::ProtocolError)
+      {
+        failConnection(1002, "Protocol error");
+        return;
+      }
+
       std::size_t consumed = 0;
       auto frame = WebSocketFrame::parse(view, consumed);
       if (!frame) break;
@@ -819,6 +836,27 @@ private:
         localBuffer.begin() + offset, localBuffer.end());
       remainder.insert(remainder.end(), _buffer.begin(), _buffer.end());
       _buffer = std::move(remainder);
+    }
+  }
+
+  /// \brief Fail the WebSocket connection (RFC 6455 Section 7.1.7): send a Close
+  /// frame with \p code, report the error, drop the receive and fragment buffers
+  /// and discard everything the peer sends from now on. The transport itself is
+  /// left to the normal close path (the peer answers the Close, or the
+  /// application calls disconnect()).
+  void failConnection(std::uint16_t code, const std::string& reason)
+  {
+    _recvFailed.store(true);
+    {
+      std::lock_guard<std::mutex> lock(_dataMutex);
+      _buffer.clear();
+      _fragmentBuffer.clear();
+      _fragmentOpcode = WsOpcode::CONTINUATION;
+    }
+    sendClose(code, reason);
+    if (_onError)
+    {
+      _onError(reason);
     }
   }
 
@@ -1217,6 +1255,9 @@ private:
   // CLOSE is echoed, re-armed in doConnect() per connection. Replaces the dead
   // _state==CLOSING guard (CLOSING is never stored — it is a reserved state).
   std::atomic<bool> _closeEchoed{false};
+  // Set by failConnection(): the peer violated the protocol, its remaining
+  // bytes are discarded. Re-armed per connection in doConnect().
+  std::atomic<bool> _recvFailed{false};
 
   // Fragment reassembly (protected by _dataMutex)
   std::vector<std::uint8_t> _fragmentBuffer;
